@@ -257,8 +257,18 @@ def transformed(mol, conf_id, tr):
     if tr:
         if tr.get("displace"):
             r = np.random.RandomState(tr["displace"]["seed"])
+            mode = tr["displace"].get("mode", "near")
             for i in tr["displace"]["atoms"]:
-                X[i] = X[i] + r.uniform(-3, 3, 3)
+                if mode == "near":
+                    X[i] = X[i] + r.uniform(-3, 3, 3)
+                elif mode == "far":
+                    X[i] = X[i] + r.uniform(-1, 1, 3) * 1e6
+                elif mode == "onto":
+                    X[i] = X[r.randint(len(X))]                  # exactly onto another atom
+                elif mode == "origin":
+                    X[i] = 0.0
+                else:                                            # coordinates that are not numbers at all (a file without them)
+                    X[i] = np.array([float("nan"), float("inf"), -float("inf")])[r.permutation(3)] if r.rand() < 0.5 else float("nan")
         if tr.get("quant"):
             # snap to the grid 2^-quant: with |x| < 2^10 every difference and every sum with a grid vector is exact in double
             g = float(2 ** tr["quant"])
